@@ -49,6 +49,8 @@ pub struct Stats {
     viol_sigs: BTreeSet<String>,
     pub notes: Vec<String>,
     sample_every: u64,
+    /// one non-trivial case with the ledger events it produced (what the monitor saw)
+    exemplar: Option<(String, Vec<String>)>,
 }
 
 fn fnv(s: &str) -> u64 {
@@ -75,6 +77,7 @@ impl Stats {
             viol_sigs: BTreeSet::new(),
             notes: Vec::new(),
             sample_every: 1,
+            exemplar: None,
         }
     }
 
@@ -106,6 +109,19 @@ impl Stats {
         self.cases += 1;
         if nontrivial {
             self.nontrivial.insert(fnv(desc));
+            // keep the richest of the first few event logs as an exemplar
+            if self.cases <= 400 || self.exemplar.is_none() {
+                let log = ledger::log_excerpt();
+                let better = match &self.exemplar {
+                    None => !log.is_empty(),
+                    Some((_, old)) => log.len() > old.len() && old.len() < 24,
+                };
+                if better {
+                    let mut l = log;
+                    l.truncate(40);
+                    self.exemplar = Some((desc.to_string(), l));
+                }
+            }
         }
         // keep a thin, spread-out sample of actual descriptors
         if self.cases % self.sample_every == 0 {
@@ -222,7 +238,7 @@ impl Stats {
         let mut o = out.lock();
         let _ = writeln!(
             o,
-            "S {{\"engine\":{},\"shard\":\"{}/{}\",\"seed\":{},\"enumerated\":{},\"cases\":{},\"nontrivial\":{},\"violations\":{},\"counters\":{{{}}},\"ops\":{{{}}},\"samples\":{},\"notes\":{}}}",
+            "S {{\"engine\":{},\"shard\":\"{}/{}\",\"seed\":{},\"enumerated\":{},\"cases\":{},\"nontrivial\":{},\"violations\":{},\"counters\":{{{}}},\"ops\":{{{}}},\"samples\":{},\"notes\":{},\"exemplar\":{}}}",
             jstr(self.engine),
             self.args.shard,
             self.args.shards,
@@ -235,6 +251,10 @@ impl Stats {
             ops.join(","),
             jlist(&self.samples),
             jlist(&self.notes),
+            match &self.exemplar {
+                Some((d, l)) => format!("{{\"case\":{},\"ledger_events\":{}}}", jstr(d), jlist(l)),
+                None => "null".to_string(),
+            },
         );
         let _ = o.flush();
     }
